@@ -10,6 +10,8 @@ import shutil
 import sqlite3
 import hashlib
 import tempfile as _real_tempfile
+import subprocess
+import sys
 
 from . import seams
 from .seams import database, make_rng
@@ -380,6 +382,89 @@ def make_v1_usage(rng, path):
     rand_rows_usage(rng, path, v1=True)
 
 
+# ------------------------------------------------- real process, real kill
+CHILD = r"""
+import sys, warnings
+warnings.simplefilter("ignore")
+sys.path.insert(0, sys.argv[1])
+from wormhole_mailbox_server import database
+fn = {"channel": database.create_or_upgrade_channel_db, "usage": database.create_or_upgrade_usage_db}[sys.argv[2]]
+db = fn(sys.argv[3])
+db.close()
+"""
+_SHIM = {}
+
+
+def kill_shim():
+    """build the LD_PRELOAD shim (mwsim/killshim.c) once per scratch root; None if no compiler"""
+    root = scratch_root()
+    if root in _SHIM:
+        return _SHIM[root]
+    so = os.path.join(root, "killshim.so")
+    src = os.path.join(os.path.dirname(os.path.abspath(__file__)), "killshim.c")
+    ok = os.path.exists(so)
+    if not ok:
+        tmp = so + ".%d" % os.getpid()
+        for cc in ("clang", "gcc", "cc"):
+            try:
+                r = subprocess.run([cc, "-shared", "-fPIC", "-O1", "-o", tmp, src, "-ldl"], capture_output=True, timeout=120)
+            except Exception:
+                continue
+            if r.returncode == 0:
+                os.replace(tmp, so)
+                ok = True
+                break
+    _SHIM[root] = so if ok else None
+    return _SHIM[root]
+
+
+def run_child(kind, path, watch_dir, kill_at=0, log=None):
+    env = dict(os.environ, LD_PRELOAD=kill_shim(), MWSIM_KILL_DIR=watch_dir, MWSIM_KILL_AT=str(kill_at),
+               PYTHONHASHSEED="0")
+    if log:
+        env["MWSIM_KILL_LOG"] = log
+    else:
+        env.pop("MWSIM_KILL_LOG", None)
+    r = subprocess.run([sys.executable, "-c", CHILD, os.path.join(seams.REPO, "src"), kind, path],
+                       env=env, capture_output=True, timeout=120)
+    return r.returncode, r.stderr.decode("utf-8", "replace")[-300:]
+
+
+def syscall_kill_points(kind, make_dir, judge, threads=8):
+    """Kill a real server start-up process right before each of its file-system
+    operations (LD_PRELOAD shim), in turn.  make_dir(tag) -> (dir, dbpath) prepares
+    the scenario; judge(dir, label) checks what the kill left behind.
+    Returns (number of operations, list of their names) or (0, reason)."""
+    if kill_shim() is None:
+        return 0, "no C compiler: syscall-level kill points skipped"
+    d, p = make_dir("rec")
+    log = d + ".oplog"
+    try:
+        rc, err = run_child(kind, p, d, 0, log)
+        if rc != 0:
+            return 0, "child failed without fault: %s" % err
+        ops = [l.split(" ", 2)[1] for l in open(log).read().splitlines() if l.strip()]
+    finally:
+        shutil.rmtree(d, ignore_errors=True)
+        if os.path.exists(log):
+            os.remove(log)
+
+    def one(k):
+        dd, pp = make_dir("k%d" % k)
+        try:
+            rc, err = run_child(kind, pp, dd, k)
+            if rc != 137:
+                return k, "kill point %d (%s): child ended with status %s instead of being killed: %s" % (k, ops[k - 1], rc, err)
+            return k, judge(dd, "kill -9 right before file-system operation %d of %d (%s)" % (k, len(ops), ops[k - 1]))
+        finally:
+            shutil.rmtree(dd, ignore_errors=True)
+    from concurrent.futures import ThreadPoolExecutor
+    with ThreadPoolExecutor(max_workers=threads) as ex:
+        results = list(ex.map(one, range(1, len(ops) + 1)))
+    problems = [(k, r) for (k, r) in results if r]
+    return len(ops), (ops, problems)
+
+
 class DbEngine(Engine):
     level = "fault_enumeration"
     assumptions = COMMON_ASSUMPTIONS[:1] + [
@@ -421,7 +506,8 @@ class DbEngine(Engine):
 
     def extra_evidence(self, agg):
         e = agg["extra"]
-        return {"fault_points_enumerated": e.get("points", 0), "crash_images_checked": e.get("images", 0),
+        return {"syscall_level_kill_points_of_a_real_process": e.get("syscall_kill_points", 0),
+                "fault_points_enumerated": e.get("points", 0), "crash_images_checked": e.get("images", 0),
                 "errors_injected": e.get("injections", 0), "rejection_cases": e.get("rejections", 0),
                 "components": {"real": ["database.py (all of it)", ".sql schema and upgrade scripts", "SQLite on real files"],
                                "simulated": ["os.path.exists/os.close/os.rename", "tempfile.mkstemp", "shutil.copy",
@@ -597,8 +683,28 @@ class C19Engine(DbEngine):
                     shutil.rmtree(d, ignore_errors=True)
                 if viol:
                     break
+        # 4. a real process killed before each of its file-system operations (per schema, once per batch)
+        if not viol and seed % 10 ** 6 in (0, 1):
+            def make_dir(tag):
+                dd = self.workdir("sys-" + tag)
+                return dd, os.path.join(dd, "db.sqlite")
+
+            def judge(dd, label):
+                before = len(viol)
+                check_dir(dd, label + " of %s creation" % kind)
+                return viol[before]["text"] if len(viol) > before else None
+            n, res = syscall_kill_points(kind, make_dir, judge)
+            if n == 0:
+                extra["syscall_skipped"] = 1
+            else:
+                ops, problems = res
+                extra["syscall_kill_points"] = n
+                for (k, text) in problems:
+                    if not any(v["text"] == text for v in viol):
+                        viol.append(self.v("kill-at-any-syscall", text))
         return viol, {"input": [kind, inputs], "nontrivial": True, "points": extra["points"], "extra": extra,
-                      "counters": {"fault_crash": extra["images"], "fault_disk_full_or_io_error": extra["injections"]}}
+                      "counters": {"fault_crash": extra["images"] + extra.get("syscall_kill_points", 0),
+                                   "fault_disk_full_or_io_error": extra["injections"]}}
 
 
 # --------------------------------------------------------------------- C20
@@ -683,6 +789,48 @@ class C20Engine(DbEngine):
                     viol.append(self.v("backup-is-byte-identical",
                                        "%s: after starting again the backup is missing or is not the old file" % where))
                     break
+            # real process killed before each of its file-system operations (every 25th seed)
+            if not viol and seed % 25 == 0:
+                seed_db = os.path.join(scratch_root(), "c20-seed-%d-%d.sqlite" % (os.getpid(), seed))
+                with open(seed_db, "wb") as f:
+                    f.write(old_bytes)
+
+                def make_dir(tag):
+                    dd = self.workdir("sys-" + tag)
+                    pp = os.path.join(dd, "usage.sqlite")
+                    shutil.copyfile(seed_db, pp)
+                    return dd, pp
+
+                def judge(dd, label):
+                    pp = os.path.join(dd, "usage.sqlite")
+                    before = len(viol)
+                    where = label + " of the upgrade"
+                    if records_intact(pp, where):
+                        db2 = None
+                        try:
+                            db2 = database.create_or_upgrade_usage_db(pp)
+                        except Exception as e:
+                            viol.append(self.v("restart-completes-upgrade", "%s: starting again fails: %s: %s"
+                                               % (where, type(e).__name__, e)))
+                        finally:
+                            close_quiet(db2)
+                        if len(viol) == before:
+                            if schema_dump(pp) != ref_schema or version_of(pp) != ref_version or full_dump(pp) != final_dump:
+                                viol.append(self.v("restart-completes-upgrade", "%s: starting again does not reach the "
+                                                   "uninterrupted result" % where))
+                            bk2 = pp + "-backup-v1"
+                            if not os.path.exists(bk2) or open(bk2, "rb").read() != old_bytes:
+                                viol.append(self.v("backup-is-byte-identical", "%s: after starting again the backup is "
+                                                   "missing or is not the old file" % where))
+                    return viol[before]["text"] if len(viol) > before else None
+                try:
+                    n, res = syscall_kill_points("usage", make_dir, judge, threads=4)
+                finally:
+                    os.remove(seed_db)
+                if n == 0:
+                    extra["syscall_skipped"] = 1
+                else:
+                    extra["syscall_kill_points"] = n
         finally:
             sim.cleanup()
             shutil.rmtree(d, ignore_errors=True)
